@@ -1,6 +1,7 @@
 package core
 
 import (
+	"reflect"
 	"time"
 )
 
@@ -13,6 +14,20 @@ func compare(a interface{}, b interface{}) int {
 	}
 	if b == nil {
 		if a != nil {
+			return 1
+		}
+		return 0
+	}
+
+	// Values of one dimension can have different types in different rows (the
+	// type is whatever was inserted). Comparing those must not panic: order
+	// them by type name so that sorting stays a consistent total order.
+	if ra, rb := reflect.TypeOf(a), reflect.TypeOf(b); ra != rb {
+		na, nb := ra.String(), rb.String()
+		if na < nb {
+			return -1
+		}
+		if na > nb {
 			return 1
 		}
 		return 0
@@ -60,7 +75,7 @@ func compare(a interface{}, b interface{}) int {
 			return -1
 		}
 	case uint:
-		tvb := uint(b.(uint64))
+		tvb := b.(uint)
 		if ta > tvb {
 			return 1
 		}
